@@ -2,7 +2,7 @@
 # seedall.sh : for every stored seeded change, apply it to /repo, run the quick checks named in its meta.json
 # (caught_by_quick_checks), undo it, and print one line per (seed, check): CAUGHT / MISSED / PATCH-DOES-NOT-APPLY.
 cd /verif
-for d in seeded/*/; do
+for d in seeded/${1:-*}/; do   # optional argument: a glob over seed ids
   id=$(basename $d)
   checks=$(/venv/bin/python -c "import json;print(' '.join(json.load(open('$d/meta.json'))['caught_by_quick_checks']))")
   if ! git -C /repo apply --check $PWD/$d/patch.diff 2>/dev/null; then echo "$id PATCH-DOES-NOT-APPLY"; continue; fi
